@@ -173,7 +173,10 @@ theorem dict_keys_are_model_keys :
 theorem template_tags_covered : ∀ t ∈ Extracted.C18.templateTags, t ∈ modelKeys ∨ t ∈ textKeys := by
   decide +kernel
 
-/-- **cif_total** — a CIF is produced for every record: with or without ZERR, TEMP, SIZE, residuals, title text. -/
+/-- **cif_total** — a CIF is produced for every record: with or without ZERR, TEMP, SIZE, residuals, title text.
+    (`rfl` here is a computation through the REGENERATED template and the dictionary for a symbolic record: no
+    branch of `cifDict` raises and every placeholder finds its key; it stops compiling when a key or a placeholder
+    is renamed on one side only.) -/
 theorem cif_total (s : Src) : isOk (cifItems s) = true := rfl
 
 /-- **cif_values_eq_model** — cell, Z, wavelength and sum formula in the CIF are the model's.
@@ -269,6 +272,7 @@ def bare : Src :=
     r1 := none, wr2 := none, goof := none, spaceGroup := none }
 
 example : isOk (cifItems bare) = true := rfl
+example : bare.wavelength ≠ 0 := by decide +kernel
 example : itemOf bare "_cell_formula_units_Z" = some (.num 1) := by decide +kernel
 example : AboveZeroK (-173.18) := by unfold AboveZeroK; norm_num
 example : itemOf { bare with temp := some (-173.18) } "_cell_measurement_temperature" = some (.num 99.97) := by
